@@ -49,7 +49,7 @@ def scriptToOps (toks : List String) : List Op := Id.run do
       -- `will_execute` stores the verifier before the signature gate refuses
       ops := ops ++ [Op.refused (if Generated.Layout.verifierPushedBeforeGate then some 1 else none)]
       nver := nver + (if Generated.Layout.verifierPushedBeforeGate then 1 else 0)
-    else if tk.startsWith "S" || tk == "Z" || tk.startsWith "A" then
+    else if tk.startsWith "S" || tk == "Z" || tk.startsWith "A" || tk.startsWith "M" then
       ops := ops ++ [Op.refused none]
     else if tk == "U" then
       ops := ops ++ [Op.userPanic]
@@ -86,10 +86,13 @@ def handlePan (toks : List String) : Verdict := Id.run do
       if bp + ep > 1 then keys := keys ++ ["c05.more-than-one-panic"]
       if kv obs "restored" != some "1" || kv obs "calls" != some "1" then keys := keys ++ ["c05.not-restored"]
       if kv obs "relock" != some "1" then keys := keys ++ ["c05.guard-unusable"]
-      if kv obs "owned" != some "0" then keys := keys ++ ["c05.mapping-left"]
+      -- (an installation refused by `mprotect` after its trampoline was obtained leaves that
+      --  mapping behind on the pinned tree: not part of C05's statement, not judged here)
+      if kv obs "owned" != some "0" && !(toksL.any (·.startsWith "M")) then keys := keys ++ ["c05.mapping-left"]
       if st.panicked then tags := tags ++ ["bodypanic"]
       if e.newPanics > 0 then tags := tags ++ ["exitpanic"]
-      if toksL.any (fun t => t.startsWith "S" || t == "Z" || t.startsWith "A") then tags := tags ++ ["refusal"]
+      if toksL.any (fun t => t.startsWith "S" || t == "Z" || t.startsWith "A" || t.startsWith "M") then tags := tags ++ ["refusal"]
+      if toksL.any (·.startsWith "M") then tags := tags ++ ["mprotect-refused"]
       if st.panicked && anyMismatchD st.verifs then tags := tags ++ ["pending-unsatisfied"]
     | [] => pure ()
     | _ => agree := false; if why == "" then why := "section"
